@@ -625,7 +625,7 @@ func (p *Pair) Nontrivial() bool {
 
 // InPlaceShapes reports which shapes of the two known in-place commit findings the pair contains:
 //
-//	"C02/dir-to-file-commit": a path is a directory with children in old and a file/symlink in new
+//	"C02/dir-to-file-commit": a path is a directory in old and a file/symlink in new
 //	"C02/kindchange-destroys-transposition-source": a path P is a regular file in old and a
 //	    directory or symlink in new while P's unchanged content is reused whole at another new path
 //
@@ -638,15 +638,7 @@ func (p *Pair) InPlaceShapes() (classes map[string][]string) {
 			continue
 		}
 		if oe.Kind == KDir && e.Kind != KDir {
-			hasChild := false
-			for r := range p.Old {
-				if Under(r, q) {
-					hasChild = true
-				}
-			}
-			if hasChild {
-				classes["C02/dir-to-file-commit"] = append(classes["C02/dir-to-file-commit"], q)
-			}
+			classes["C02/dir-to-file-commit"] = append(classes["C02/dir-to-file-commit"], q)
 		}
 		if oe.Kind == KFile && e.Kind != KFile {
 			for r, ne := range p.New {
